@@ -15,7 +15,7 @@ from ..simnet import SimNet
 from ..actors import ScriptedServer
 from ..explore import Chooser, explore
 
-from aioslsk.events import EventBus, UserTrackingStateChangedEvent
+from aioslsk.events import EventBus, FriendListChangedEvent, UserTrackingStateChangedEvent
 from aioslsk.network.network import Network
 from aioslsk.user.manager import UserManager
 from aioslsk.user.model import TrackingFlag, TrackingState
@@ -54,7 +54,7 @@ def run_one(params: dict, chooser, deviations=True) -> dict:
         net = SimNet(world)
         install_virtual_time(world)
         server = ScriptedServer(net)
-        settings = make_settings(_copy=False, obfuscated_port=0)
+        settings = make_settings(_copy=any(c[0] in 'AD' for c in calls), obfuscated_port=0)     # friend list ops mutate it
         bus = EventBus()
         network = Network(settings, bus)
         users = UserManager(settings, bus, network)
@@ -150,17 +150,37 @@ def run_one(params: dict, chooser, deviations=True) -> dict:
                 return orig_write(data)
             lib_t.write = write
 
+        if any(c[0] in 'AD' for c in calls):
+            # friend list changes are only acted upon within a session
+            from aioslsk.session import Session
+            from aioslsk.user.model import User
+            from aioslsk.protocol.messages import Login
+            from aioslsk.events import SessionInitializedEvent
+
+            async def session():
+                await bus.emit(SessionInitializedEvent(Session(User('me'), '10.0.0.1', 'hi', 157, 100), Login.Response(
+                    success=True, greeting='hi', ip='10.0.0.1', md5hash='x' * 32, privileged=False)))
+            world.op('setup', 'session', session, record=False)
+            world.run_default_until_idle()
         world.deviations = deviations
         call_log: list[tuple] = []     # (time, op, flag, user)
         for n, c in enumerate(calls):
             op, fl, user = c[0], c[1], c[2]
 
             async def do(op=op, fl=fl, user=user):
-                call_log.append((world.now(), op, fl, user, len(server.received)))
+                # 'A' / 'D': the user is added to / removed from the friend list in the settings and the manager is
+                # told the way its own settings poll tells it (same reason-set semantics as track / untrack FRIEND)
+                call_log.append((world.now(), {'A': 't', 'D': 'u'}.get(op, op), fl, user, len(server.received)))
                 if op == 't':
                     await users.track_user(user, FLAGS[fl])
-                else:
+                elif op == 'u':
                     await users.untrack_user(user, FLAGS[fl])
+                elif op == 'A':
+                    settings.users.friends.add(user)
+                    await bus.emit(FriendListChangedEvent(added={user}, removed=set()))
+                else:
+                    settings.users.friends.discard(user)
+                    await bus.emit(FriendListChangedEvent(added=set(), removed={user}))
             world.op('u', f'{n}{c}', do)
         if params.get('loss'):
             def lose():
@@ -355,6 +375,12 @@ def scenarios(tier: str):
                 continue
             horizon = 90.0 if 'notexists' not in script else 660.0
             out.append({'calls': seq, 'script': script, 'horizon': horizon})
+    # the friend reason arriving through the friend list of the settings
+    for seq in (['AFa'], ['AFa', 'DFa'], ['tRa', 'AFa', 'uRa'], ['tRa', 'AFa', 'uRa', 'DFa'], ['AFa', 'tRa', 'DFa'],
+                ['AFa', 'tRa', 'DFa', 'uRa'], ['AFa', 'tFa', 'DFa'], ['tRa', 'AFb', 'uRa', 'DFb']):
+        out.append({'calls': seq, 'script': ['exists'], 'horizon': 90.0})
+        if len(seq) <= 3:
+            out.append({'calls': seq, 'script': ['silence', 'exists'], 'horizon': 90.0})
     for seq in ([['tRa'], ['tRa', 'uRa'], ['tRa', 'tFb'], ['tRa', 'uRa', 'tRa']]):
         out.append({'calls': seq, 'script': ['exists'], 'loss': True, 'horizon': 40.0})
         out.append({'calls': seq, 'script': ['silence', 'exists'], 'loss': True, 'horizon': 40.0})
